@@ -289,7 +289,7 @@ def rebuild(start, trace_idx):
     return msg, ref
 
 
-def dfs(acc, start, maxdepth, budget):
+def dfs(acc, start, maxdepth, budget, first=None):
     seen = set()
     msg = start_message(start)
     ref = Ref(msg)
@@ -299,6 +299,12 @@ def dfs(acc, start, maxdepth, budget):
         return
     stack = [[]]
     seen.add(abstract(msg))
+    if first is not None:
+        # the thorough tier splits the search by its first operation (one worker each); the state sets are then per worker
+        if not apply(acc, msg, ref, OPS[first], []):
+            return
+        seen.add(abstract(msg))
+        stack = [[first]]
     closed = True
     while stack:
         path = stack.pop()
@@ -325,8 +331,9 @@ def dfs(acc, start, maxdepth, budget):
             else:
                 closed = False
     acc.sigs.update(harness.sig_hash(repr(s)) for s in seen)
-    acc.extra["closed_%s" % start] = 1 if closed else 0
-    acc.extra["states_%s" % start] = len(seen)
+    tag = start if first is None else "%s/%d" % (start, first)
+    acc.extra["closed_%s" % tag] = 1 if closed else 0
+    acc.extra["states_%s" % tag] = len(seen)
 
 
 def random_walks(acc, rng, n, maxlen):
@@ -350,7 +357,7 @@ def random_walks(acc, rng, n, maxlen):
 def run_batch(b):
     acc = harness.Acc()
     if b["kind"] == "dfs":
-        dfs(acc, b["start"], b["maxdepth"], b["budget"])
+        dfs(acc, b["start"], b["maxdepth"], b["budget"], b.get("first"))
         acc.sample({"dfs_start": b["start"], "ops": [getattr(o, "__name__", "op") for o in OPS]})
     else:
         random_walks(acc, random.Random(b["seed"]), b["n"], 40)
@@ -360,10 +367,14 @@ def run_batch(b):
 def main(tier, seed):
     t0 = time.time()
     q = tier == "quick"
-    batches = [{"kind": "dfs", "start": s, "maxdepth": 12, "budget": 12000 if q else 1500000} for s in ("generic", "decoded", "typed", "decoded-empty", "request-class")]
+    starts = ("generic", "decoded", "typed", "decoded-empty", "request-class")
+    if q:
+        batches = [{"kind": "dfs", "start": s, "maxdepth": 12, "budget": 12000} for s in starts]
+    else:
+        batches = [{"kind": "dfs", "start": s, "maxdepth": 12, "budget": 120000, "first": i} for s in starts for i in range(len(OPS))]
     for i in range(8 if q else 32):
         batches.append({"kind": "random", "n": 400 if q else 6000, "seed": seed * 4093 + i})
-    acc = harness.run_workers("checks.c11_container", "run_batch", batches, 1500)
+    acc = harness.run_workers("checks.c11_container", "run_batch", batches, 3000)
     closed = {k: v for k, v in acc.extra.items() if k.startswith("closed_")}
     return harness.finish(PROP, tier, seed, "exploration", acc, RULE,
                           ["names are the attributes whose key contains '_avp' (the library's own convention)",
